@@ -11,6 +11,7 @@ tried = {}
 for f in sorted(glob.glob('/verif/tools/classes-round*.json')):
     for k, v in json.load(open(f)).items():
         tried.setdefault(k, []).append(v)
+known = open('/verif/tools/known-reported.txt').read() if len(sys.argv) > 3 and sys.argv[3] == '--known' else ''
 for g, ids in groups.items():
     parts = []
     for pid in ids:
@@ -36,6 +37,6 @@ The semantic properties to test:
 
 Your task: find inputs, within what the properties quantify over, that the crate AS IT IS handles wrongly with respect to one of these properties (does not compile although the plain Rust item does, wrong behaviour at run time, a panic, lost or altered tokens, an unparseable expansion, a diagnostic where none is due or none where one is due). Think about which kinds of Rust syntax and which combinations of features a person writing real code would use that a tester with generated inputs is least likely to have covered - unusual but legal syntax, interactions between two features, things that only show in behaviour (drop order, hygiene, which impl is selected, lints as errors) - and try them. Write small programs under `tests/explore/` (a tiny crate with its own empty `[workspace]` table that depends on `entrait` by path, optionally with `features = ["unimock"]`; `cargo expand` is not available - read compile errors, use the undocumented `debug` option of the attribute to print an expansion, or run the program). Aim for breadth first (dozens of small inputs), then dig where something looks off. For every candidate, check that the same item WITHOUT `#[entrait]` is accepted by rustc (otherwise it is not a finding), and reduce it to a minimal program.
 
-Reply with a list of findings, most convincing first. For each: the property it concerns, the minimal program, what happens (exact error / wrong value), what should happen according to the property, and - if you can tell - which part of `entrait_macros/src` is at fault and what a minimal repair would be. Then list, briefly, the kinds of input you tried that worked. Do not report the limitations the documentation states itself (cyclic dependency graphs, `&mut` dependencies, generic delegated traits, `impl<T>` blocks, `Self` in signatures of delegated traits, mock-library limits)."""
+Reply with a list of findings, most convincing first. For each: the property it concerns, the minimal program, what happens (exact error / wrong value), what should happen according to the property, and - if you can tell - which part of `entrait_macros/src` is at fault and what a minimal repair would be. Then list, briefly, the kinds of input you tried that worked. """ + ("\n\nThe following have been reported by earlier testers already - do NOT spend time on them or report them again:\n" + known if known else "") + """\n\nDo not report the limitations the documentation states itself (cyclic dependency graphs, `&mut` dependencies, generic delegated traits, `impl<T>` blocks, `Self` in signatures of delegated traits, mock-library limits)."""
     open(f'{root}/{g}.prompt', 'w').write(txt)
 print('ok', len(groups))
